@@ -264,6 +264,9 @@ func (f *Fragment) Encode(w io.Writer) error {
 	}
 	traf := f.Moof.Traf
 	if f.EncOptimize&OptimizeTrun != 0 {
+		if traf == nil {
+			return fmt.Errorf("no traf box in moof")
+		}
 		err := traf.OptimizeTfhdTrun()
 		if err != nil {
 			return err
@@ -289,6 +292,9 @@ func (f *Fragment) EncodeSW(sw bits.SliceWriter) error {
 	}
 	traf := f.Moof.Traf
 	if f.EncOptimize&OptimizeTrun != 0 {
+		if traf == nil {
+			return fmt.Errorf("no traf box in moof")
+		}
 		err := traf.OptimizeTfhdTrun()
 		if err != nil {
 			return err
